@@ -296,6 +296,7 @@ func c18(c *ev.Ctx) {
 			c.Violation(id, "oversize body accepted", map[string]interface{}{"summary": fmt.Sprintf("a %d-statement body (more than 65535 bytes) is accepted but its jumps are truncated: verifier %v, result %s (expected INTEGER:2 or a Prepare error)", stmts, probs, got), "script_statements": stmts})
 		}
 	}
+	c18SizeBoundary(c)
 	// the program in force stays well-formed across a second Prepare (accepted or refused)
 	c20RePrepare(c)
 	// known findings: value-less constructs accepted in value position
@@ -324,4 +325,61 @@ func c18(c *ev.Ctx) {
 		}
 		c.Probe(pr.name, fails, what, map[string]interface{}{"script": pr.script})
 	}
+}
+
+// c18SizeBoundary: bodies (the main program, a function) that end within a few bytes of
+// the 65535-byte limit, closed by each construct that jumps: byte by byte across the limit,
+// Prepare either refuses the script or the code it accepted is well-formed and runs without
+// an internal error - a jump operand is never cut to sixteen bits.
+func c18SizeBoundary(c *ev.Ctx) {
+	closers := []struct{ name, text string }{
+		{"if", "if (C) { a = 1; }"},
+		{"if-else", "if (C) { a = 1; } else { a = 2; }"},
+		{"while", "while (C) { C = false; }"},
+		{"foreach", "foreach e in [1] { a = e; }"},
+		{"ternary", "a = C ? 1 : 2;"},
+		{"switch", "switch (C) { case 1 { a = 1; } default { a = 2; } }"},
+		{"assignment", "a = true;"},
+	}
+	accepted, refused := 0, 0
+	for ci, cl := range closers {
+		for k := 0; k <= 12; k++ {
+			for _, inFn := range []bool{false, true} {
+				id := fmt.Sprintf("size-boundary/%s/%d/%v", cl.name, k, inFn)
+				if !c.Want(id) {
+					continue
+				}
+				// 9357 seven-byte statements and k five-byte ones: the closing statement starts
+				// between offsets 65499 and 65559
+				body := strings.Repeat("a = 1; ", 9357) + strings.Repeat("a = true; ", k) + cl.text
+				script := body + " return 7;"
+				if inFn {
+					script = "function big(C) { " + body + " } big(C); return 7;"
+				}
+				c.Case(id, true)
+				for _, noOpt := range []bool{(ci+k)%2 == 0} {
+					evr, err := eng.New(script, eng.Options{NoOptimize: noOpt, Budget: 5000000})
+					if err != nil {
+						refused++
+						continue
+					}
+					accepted++
+					probs, _ := verifyPrepared(evr)
+					var bad string
+					for _, cv := range []interface{}{false, true, 1} {
+						ob := evr.Exec(map[string]interface{}{"C": cv})
+						if s := isInternalError(ob.Err); s != "" || (ob.Err == nil && ob.Desc() != "INTEGER:7") {
+							bad = fmt.Sprintf("run with C=%v gives %s %s", cv, ob.Desc(), errText(ob.Err))
+							break
+						}
+					}
+					if len(probs) > 0 || bad != "" {
+						c.Violation(id, "body at the size limit accepted with damaged jumps", map[string]interface{}{
+							"summary": fmt.Sprintf("a body of 9357 + %d statements closed by `%s` (in a function: %v, noopt=%v) is accepted; verifier: %v; %s (a Prepare error, or sound code returning 7, expected)", k, cl.text, inFn, noOpt, probs, bad), "closing_statement": cl.text})
+					}
+				}
+			}
+		}
+	}
+	c.Extra("size_boundary_bodies", map[string]int{"accepted": accepted, "refused": refused})
 }
